@@ -116,6 +116,22 @@ func runCLI(c *core.Ctx, flag, arg string) injRun {
 	return r
 }
 
+// injectorCrashed: the tool died (panic text, killed, an exit status of 2 or more), or it reported
+// failure (exit status 1) although every .go file it was given can be processed. An exit status of
+// 1 next to a file that cannot be processed is a report, not a crash.
+func injectorCrashed(run injRun, anyUnprocessable bool) bool {
+	return run.Crashed || run.ExitCode < 0 || run.ExitCode >= 2 || (run.ExitCode == 1 && !anyUnprocessable)
+}
+
+func anyClass(classes map[string]string, cl string) bool {
+	for _, c := range classes {
+		if c == cl {
+			return true
+		}
+	}
+	return false
+}
+
 func readAll(dir string, names []string) map[string][]byte {
 	out := map[string][]byte{}
 	for _, n := range names {
@@ -237,7 +253,7 @@ func c06Batch(c *core.Ctx, rng *rand.Rand, batch int, withFree bool, oddDir bool
 		if withFree && rng.Intn(7) == 0 {
 			// idempotence only (C07): the parseable-but-awkward shapes of C19 (grouped and local type
 			// declarations, fields without a literal, malformed @tag text, backquote values ...)
-			k := []string{"no-literal", "malformed-tag", "grouped", "grouped", "interpreted-literal", "empty-literal", "backquote-value", "cr-in-literal", "crlf", "bom", "bom", "multiline-block"}[rng.Intn(12)]
+			k := []string{"no-literal", "malformed-tag", "grouped", "grouped", "interpreted-literal", "empty-literal", "backquote-value", "cr-in-literal", "crlf", "bom", "bom", "multiline-block", "odd-literal", "odd-literal"}[rng.Intn(14)]
 			src, cl = c19Awkward(rng, k), "AWK"+k
 		}
 		name := fmt.Sprintf("f%02d_%s.pb.go", i, strings.ToLower(cl))
@@ -297,7 +313,7 @@ func runC06(c *core.Ctx) {
 		c.Journal("C06 batch %d mode %s files %v", b, mode, names)
 		run := runInjector(c, mode, dir, names)
 		after := readAll(dir, names)
-		if run.ExitCode != 0 || run.Crashed {
+		if injectorCrashed(run, anyClass(classes, "RWbad")) {
 			res.Violate("C06|injector-crashed|"+mode, fmt.Sprintf("injector %s exit=%d crashed=%v: %s", mode, run.ExitCode, run.Crashed, trunc(run.Output, 600)), injWitness{Mode: mode, Output: run.Output})
 		}
 		for _, n := range names {
@@ -358,7 +374,7 @@ func runC07(c *core.Ctx) {
 			c.Journal("C07 batch %d step %d mode %s", b, s, mode)
 			run := runInjector(c, mode, dir, names)
 			cur := readAll(dir, names)
-			if run.ExitCode != 0 || run.Crashed {
+			if injectorCrashed(run, anyClass(classes, "RWbad")) {
 				res.Violate("C07|injector-crashed|"+mode, fmt.Sprintf("injector %s exit=%d: %s", mode, run.ExitCode, trunc(run.Output, 600)), injWitness{Mode: mode, Output: run.Output})
 			}
 			if s == 0 {
@@ -479,6 +495,11 @@ func c19Awkward(rng *rand.Rand, kind string) string {
 			"/*\n\t @tag valid:\"required\" */",
 		}[rng.Intn(6)]
 		return base + "type A struct {\n\tName string `json:\"name\"` " + cm + "\n\tAge  int32 `json:\"age\"` // @tag valid:\"ge=0\"\n}\n\n" + good
+	case "odd-literal":
+		// tag literals that are legal Go but not in conventional form: an unbalanced quote, a lone key,
+		// blanks only, a colon without quotes (whatever the tool makes of them, it makes it once)
+		lit := []string{"`db:\"name`", "`json`", "`   `", "`json:name`", "`a:\"1\" b:\"2`", "`:\"x\"`", "`json:\"a\"\"`"}[rng.Intn(7)]
+		return base + "type A struct {\n\tName string " + lit + " // @tag valid:\"required\"\n\tAge  int32 `json:\"age\"` // @tag valid:\"ge=0\"\n}\n\n" + good
 	case "bom":
 		// a UTF-8 byte order mark in front of the package clause is legal Go
 		src, _ := gen.GenGoFile(rng, gen.SrcOpts{Class: []string{"G1", "G3", "G0"}[rng.Intn(3)]})
@@ -668,7 +689,7 @@ func runC19(c *core.Ctx) {
 		for _, e := range entries {
 			listing = append(listing, e.Name+"("+e.Kind+")")
 		}
-		if run.ExitCode != 0 || run.Crashed {
+		if injectorCrashed(run, c19AnyUnprocessable(entries)) {
 			cause := "other"
 			for _, e := range entries {
 				if e.Kind == "awkward|no-literal" {
@@ -733,6 +754,15 @@ func runC19(c *core.Ctx) {
 		}
 		os.RemoveAll(dir)
 	}
+}
+
+func c19AnyUnprocessable(entries []c19Entry) bool {
+	for _, e := range entries {
+		if strings.HasSuffix(e.Name, ".go") && (e.IsDir || !e.Parses) {
+			return true
+		}
+	}
+	return false
 }
 
 func uint64FromHash(b []byte) uint64 {
